@@ -118,6 +118,22 @@ def all_signatures(modules: dict) -> dict:
     return out
 
 
+# documented aliases of one library function (the installed jax exposes both spellings as the same object)
+EXTERNAL_ALIASES = {
+    "jax.tree.map": "jax.tree_util.tree_map",
+    "jax.tree.leaves": "jax.tree_util.tree_leaves",
+    "jax.tree.flatten": "jax.tree_util.tree_flatten",
+    "jax.tree.unflatten": "jax.tree_util.tree_unflatten",
+    "jax.tree.structure": "jax.tree_util.tree_structure",
+    "jax.tree.reduce": "jax.tree_util.tree_reduce",
+    "jax.tree.all": "jax.tree_util.tree_all",
+    "jax.numpy.concat": "jax.numpy.concatenate",
+    "jax.numpy.amax": "jax.numpy.max",
+    "jax.numpy.amin": "jax.numpy.min",
+    "jax.numpy.absolute": "jax.numpy.abs",
+}
+
+
 class Program:
     def __init__(self, repo: str = REPO):
         self.repo = repo
@@ -250,6 +266,8 @@ class Program:
                 node.targets[0], ast.Name
             ):
                 m.assigns[node.targets[0].id] = node.value
+            elif isinstance(node, ast.AnnAssign) and isinstance(node.target, ast.Name) and node.value is not None:
+                m.assigns[node.target.id] = node.value
 
     def _index_class(self, m: Module, node: ast.ClassDef) -> ClassInfo:
         c = ClassInfo(node.name, f"{m.name}.{node.name}", m, node, [])
@@ -257,7 +275,7 @@ class Program:
             if isinstance(st, (ast.FunctionDef, ast.AsyncFunctionDef)):
                 decs = _decorator_names(st)
                 c.methods[st.name] = st
-                if "property" in decs:
+                if "property" in decs or any(d.endswith("cached_property") for d in decs):
                     c.properties.add(st.name)
                 if any(d.endswith("abstractmethod") for d in decs):
                     c.abstract.add(st.name)
@@ -284,6 +302,8 @@ class Program:
 
     def canonical(self, q: str, _depth=0) -> str:
         """Follow re-exports inside the repo (flowjax.bijections.Affine -> ...affine.Affine)."""
+        if q in EXTERNAL_ALIASES:
+            return EXTERNAL_ALIASES[q]
         if _depth > 8 or not q.startswith(PKG):
             return q
         parts = q.split(".")
